@@ -4,3 +4,5 @@ INVARIANT MaskRoundTrip
 INVARIANT EachEntryItsOwnTransform
 CONSTRAINT Emit
 CHECK_DEADLOCK FALSE
+INVARIANT ExcludedEntriesPassThrough
+INVARIANT PartialRoundTrip
